@@ -256,6 +256,28 @@ func checkRecords(w *World, v *h.Verdict, step int, op Op, tz int) bool {
 				}
 			}
 		}
+		// one-time events: one record each, holding exactly the containers the event reported
+		for _, ev := range st.events {
+			known[int64(ev.chargingID)] = true
+			recs := byCharging[int64(ev.chargingID)]
+			if len(recs) != 1 {
+				v.Failf("event-record-count", "step %d: the one-time event with charging id %d of subscriber %d has %d records, want 1", step, ev.chargingID, si, len(recs))
+				return false
+			}
+			got := flatten(recs[0])
+			if len(got) != len(ev.conts) {
+				v.Failf("event-containers", "step %d: the record of one-time event %d holds %d containers, the event reported %d", step, ev.chargingID, len(got), len(ev.conts))
+				return false
+			}
+			for i, m := range ev.conts {
+				g := got[i]
+				if g.LSN != int64(m.LSN) || g.RG != int64(act(st.supi, m.RG)) || g.Tot != int64(m.Tot) || g.Up != int64(m.Up) || g.Down != int64(m.Down) || g.SSU != int64(m.SSU) {
+					v.Failf("event-containers", "step %d: container %d of one-time event %d recorded as %+v, reported %+v", step, i, ev.chargingID, g, m)
+					return false
+				}
+			}
+			v.Label("one-time-event")
+		}
 		for id := range byCharging {
 			if !known[id] {
 				v.Failf("record-of-unknown-session", "step %d: subscriber %d holds a record with charging id %d that no create of this history produced", step, si, id)
@@ -414,7 +436,7 @@ func judgeRecords(prop string) func(Hist) *h.Verdict {
 }
 
 func genRecHist(t *rapid.T) Hist {
-	hst := genHist(t, genOpts{maxSubs: 2, maxSess: 3, minOps: 4, maxOps: h.Scale(18, 30), offline: true, jumbo: true, rgNums: true})
+	hst := genHist(t, genOpts{maxSubs: 2, maxSess: 3, minOps: 4, maxOps: h.Scale(18, 30), offline: true, jumbo: true, rgNums: true, events: true})
 	hst.TZ = rapid.SampledFrom(zonePool).Draw(t, "tz")
 	return hst
 }
